@@ -32,7 +32,9 @@ for sid in ids:
         scratch = Path(tempfile.mkdtemp(prefix=f"seedrun_{sid}_"))
         try:
             shutil.copytree("/repo/pyxel", scratch / "pyxel")
-            p = subprocess.run(["patch", "-p1", "-s", "-i", str(d / "patch.diff")], cwd=scratch, capture_output=True, text=True)
+            # patch_current.diff = the same change re-expressed on the current (repaired) tree, when patch.diff no longer applies
+            pf = d / "patch_current.diff" if (d / "patch_current.diff").exists() else d / "patch.diff"
+            p = subprocess.run(["patch", "-p1", "-s", "--no-backup-if-mismatch", "-F0", "-i", str(pf)], cwd=scratch, capture_output=True, text=True)
             if p.returncode != 0:
                 print(sid, "PATCH DOES NOT APPLY", p.stdout, p.stderr)
                 summary.append((sid, prop, "patch-failed", 0))
